@@ -230,10 +230,15 @@ func checkC08(c *Check) {
 				continue
 			}
 			var ta *ssa.TypeAssert
-			for _, b := range fn.Blocks {
-				for _, ins := range b.Instrs {
-					if x, ok := ins.(*ssa.TypeAssert); ok && types.Identical(derefType(x.AssertedType), named) {
-						ta = x
+			for _, df := range deepFuncs(fn, 2) {
+				if pkgPathOf(df) != pkgServer {
+					continue
+				}
+				for _, b := range df.Blocks {
+					for _, ins := range b.Instrs {
+						if x, ok := ins.(*ssa.TypeAssert); ok && types.Identical(derefType(x.AssertedType), named) {
+							ta = x
+						}
 					}
 				}
 			}
@@ -247,16 +252,17 @@ func checkC08(c *Check) {
 			if ta.CommaOk {
 				asserted = extractOf(ta, 0)
 			}
-			for _, ci := range allCalls(fn) {
+			recvLeaves := LeavesInl(procCall.Common().Value, leafOpts{noConcat: true}, 2, func(f *ssa.Function) bool { return pkgPathOf(f) != pkgServer })
+			for _, ci := range allCalls(ta.Parent()) {
 				cc, ok := ci.(*ssa.Call)
 				if !ok || cc.Common().StaticCallee() == nil || pkgPathOf(cc.Common().StaticCallee()) != pkgAuthz {
 					continue
 				}
 				for _, a := range cc.Common().Args {
 					if base, f, okf := fieldLoad(resolveCell(stripConv(a))); okf && f != nil && f.Name() == field && base == asserted {
-						// flows into the Process receiver
-						for d := range dataDeps(procCall.Common().Value) {
-							if d == ssa.Value(cc) {
+						// flows into the Process receiver (directly, or as the result of the handler-building helper)
+						for _, l := range recvLeaves {
+							if cl, _, isC := asCall(l); isC && cl == cc {
 								okArm = true
 							}
 						}
@@ -264,12 +270,7 @@ func checkC08(c *Check) {
 				}
 			}
 			// the asserted value is the current filter's Type
-			fromFilter := false
-			for d := range dataDeps(ta.X) {
-				if filterIA != nil && d == ssa.Value(filterIA) {
-					fromFilter = true
-				}
-			}
+			fromFilter := filterIA != nil && derivesFromValue(P, ta.X, filterIA, 2)
 			c.Obl(okArm && fromFilter, "C08.R3", key, P.Pos(instrPos(ta)), "arm builds the handler from the current filter's own "+field+" configuration and that handler judges the request",
 				"the "+n+" arm does not build the judging handler from the current filter's own configuration")
 		}
@@ -280,12 +281,18 @@ func checkC08(c *Check) {
 	serverLoopRule = "C01.R5"
 	// the judging handler is built in this check from the current filter only: every source of the Process
 	// receiver is a handler constructor call made in Check (a cached or shared handler may belong to another chain)
-	for _, l := range Leaves(procCall.Common().Value, leafOpts{noConcat: true}) {
+	inCheck := map[*ssa.Function]bool{}
+	for _, df := range deepFuncs(fn, 2) {
+		if pkgPathOf(df) == pkgServer {
+			inCheck[df] = true
+		}
+	}
+	for _, l := range LeavesInl(procCall.Common().Value, leafOpts{noConcat: true}, 2, func(f *ssa.Function) bool { return pkgPathOf(f) != pkgServer }) {
 		if isNilConst(l) {
 			continue
 		}
 		hc, _, isC := asCall(l)
-		okH := isC && hc.Common().StaticCallee() != nil && pkgPathOf(hc.Common().StaticCallee()) == pkgAuthz && hc.Parent() == fn
+		okH := isC && hc.Common().StaticCallee() != nil && pkgPathOf(hc.Common().StaticCallee()) == pkgAuthz && inCheck[hc.Parent()]
 		c.Obl(okH, "C08.R3", "handler-built-per-check/"+shortOrigin(l), P.Pos(procCall.Pos()), "handler = constructor call in this check",
 			"the handler that judges the request can come from "+descDepth(l, 3)+" instead of being built in this check from the current filter (a cached handler can belong to another chain)")
 	}
@@ -432,6 +439,47 @@ func denyTemplateOK(P *Program) bool {
 					}
 				}
 			}
+		}
+	}
+	return false
+}
+
+
+// derivesFromValue: v data-depends on target, possibly through a parameter of an own helper whose
+// argument at every call site derives from target.
+func derivesFromValue(P *Program, v, target ssa.Value, depth int) bool {
+	deps := dataDeps(v)
+	if v == target || deps[target] {
+		return true
+	}
+	if depth == 0 {
+		return false
+	}
+	check := func(p *ssa.Parameter) bool {
+		fn := p.Parent()
+		idx := -1
+		for i, q := range fn.Params {
+			if q == p {
+				idx = i
+			}
+		}
+		callers := P.CallersOf(fn)
+		if idx < 0 || len(callers) == 0 {
+			return false
+		}
+		for _, cs := range callers {
+			if idx >= len(cs.Common().Args) || !derivesFromValue(P, cs.Common().Args[idx], target, depth-1) {
+				return false
+			}
+		}
+		return true
+	}
+	if p, ok := v.(*ssa.Parameter); ok && check(p) {
+		return true
+	}
+	for d := range deps {
+		if p, ok := d.(*ssa.Parameter); ok && check(p) {
+			return true
 		}
 	}
 	return false
